@@ -62,18 +62,19 @@ Fits(ty, lo, hi) ==
       [] ty \in Fixed   -> LoOf(ty) <= lo /\ hi <= HiOf(ty)
       [] OTHER          -> FALSE
 
-\* the property: the type can hold every permitted value, and a fixed-width type is used
-\* only when the constraint is non-extensible with both bounds finite
-Allowed(ty, lo, hi, ext) ==
+\* the property, on the hull plo..phi of all permitted values (see PermLo/PermHi below): the type
+\* can hold every permitted value, and a fixed-width type is used only when that hull is finite
+\* (non-extensible constraint with both bounds finite)
+Allowed(ty, plo, phi) ==
     /\ ty \in Types
-    /\ Fits(ty, lo, hi)
-    /\ ty \in Fixed => (~ext /\ Finite(lo) /\ Finite(hi))
+    /\ Fits(ty, plo, phi)
+    /\ ty \in Fixed => (Finite(plo) /\ Finite(phi))
 
 \* the narrowest allowed type, unsigned preferred -- the selection an ideal generator makes;
 \* the property does NOT demand this choice (any Allowed type is accepted)
 Order == <<"u8", "i8", "u16", "i16", "u32", "i32", "u64", "i64", "Integer">>
-Narrowest(lo, hi, ext) ==
-    LET ok == {i \in 1..Len(Order) : Allowed(Order[i], lo, hi, ext)}
+Narrowest(plo, phi) ==
+    LET ok == {i \in 1..Len(Order) : Allowed(Order[i], plo, phi)}
     IN Order[CHOOSE i \in ok : \A j \in ok : i <= j]
 
 ----------------------------------------------------------------------------
@@ -85,34 +86,79 @@ Positions == {"assignment", "component", "element", "reference", "value", "defau
 ValuePositions == {"value", "default"}
 Zero == IdxOf(<<0, 0, 0>>)
 
-VARIABLES lo, hi, ext, pos, phase, ty,
-          form,   \* "range" (lo..hi) or, when lo = hi, "single" (v)
-          val     \* value/default positions: index of the value that is assigned (lo or hi); else 0
-vars == <<lo, hi, ext, pos, phase, ty, form, val>>
+\* set operations combining the range lo..hi with a second range lo2..hi2:
+\*   "none"    (lo..hi)
+\*   "|"       (lo..hi | lo2..hi2)       permitted: either range
+\*   "^"       (lo..hi ^ lo2..hi2)       permitted: the overlap
+\*   "serial"  (lo..hi)(lo2..hi2)        permitted: the overlap
+CONSTANT Ops
 
-Init == lo = 0 /\ hi = 0 /\ ext = FALSE /\ pos = "none" /\ phase = "lo" /\ ty = "none" /\ form = "range" /\ val = 0
-PickLo(i) == phase = "lo" /\ i # MaxIdx /\ lo' = i /\ phase' = "hi" /\ UNCHANGED <<hi, ext, pos, ty, form, val>>
-PickHi(i) == phase = "hi" /\ i >= lo /\ i # MinIdx /\ hi' = i /\ phase' = "ext" /\ UNCHANGED <<lo, ext, pos, ty, form, val>>
-PickExt(b) == phase = "ext" /\ ext' = b /\ phase' = "pos" /\ UNCHANGED <<lo, hi, pos, ty, form, val>>
-\* the values a value assignment / DEFAULT may take in this model: the finite ends of the range
-Ends == IF Finite(lo) \/ Finite(hi) THEN {i \in {lo, hi} : Finite(i)} ELSE {Zero}
+VARIABLES lo, hi, ext, pos, phase, ty,
+          op, lo2, hi2,
+          form,   \* "range" (lo..hi) or, when lo = hi, "single" (v)
+          val     \* value/default positions: index of the value that is assigned; else 0
+vars == <<lo, hi, ext, pos, phase, ty, op, lo2, hi2, form, val>>
+
+Min(a, b) == IF a <= b THEN a ELSE b
+Max(a, b) == IF a >= b THEN a ELSE b
+
+\* the least and greatest permitted value (indices); for an intersection the overlap
+EffLo(o, a, b, c, d) == CASE o = "none" -> a [] o = "|" -> Min(a, c) [] OTHER -> Max(a, c)
+EffHi(o, a, b, c, d) == CASE o = "none" -> b [] o = "|" -> Max(b, d) [] OTHER -> Min(b, d)
+ELo == EffLo(op, lo, hi, lo2, hi2)
+EHi == EffHi(op, lo, hi, lo2, hi2)
+
+\* Hull of ALL values the constraint permits, extension additions included.
+\*  - not extensible: the effective range;
+\*  - extensible: any value may be added later, the hull is unbounded -- except for a serial
+\*    constraint (lo..hi)(lo2..hi2, ...): X.680 clause 50 / G.4.2 restricts the extension
+\*    additions of the later constraint to the values of the parent type, so the hull is the
+\*    parent range lo..hi.
+\* "A fixed-width type is used only when the constraint is non-extensible with both bounds
+\* finite" is read on this hull: a fixed-width type is allowed iff the hull is finite and fits.
+PermLo(o, a, b, c, d, x) == IF ~x THEN EffLo(o, a, b, c, d) ELSE IF o = "serial" THEN a ELSE MinIdx
+PermHi(o, a, b, c, d, x) == IF ~x THEN EffHi(o, a, b, c, d) ELSE IF o = "serial" THEN b ELSE MaxIdx
+PLo == PermLo(op, lo, hi, lo2, hi2, ext)
+PHi == PermHi(op, lo, hi, lo2, hi2, ext)
+
+Init == /\ lo = 0 /\ hi = 0 /\ ext = FALSE /\ pos = "none" /\ phase = "lo" /\ ty = "none"
+        /\ form = "range" /\ val = 0 /\ op = "none" /\ lo2 = 0 /\ hi2 = 0
+PickLo(i) == phase = "lo" /\ i # MaxIdx /\ lo' = i /\ phase' = "hi" /\ UNCHANGED <<hi, ext, pos, ty, form, val, op, lo2, hi2>>
+PickHi(i) == phase = "hi" /\ i >= lo /\ i # MinIdx /\ hi' = i /\ phase' = "op" /\ UNCHANGED <<lo, ext, pos, ty, form, val, op, lo2, hi2>>
+PickOp(o, c, d) ==
+    /\ phase = "op" /\ o \in Ops
+    /\ IF o = "none" THEN c = 0 /\ d = 0
+       ELSE /\ c \in 1..(NPoints - 1) /\ d \in 2..NPoints /\ c <= d
+            \* an intersection must leave at least one value
+            /\ o \in {"^", "serial"} => EffLo(o, lo, hi, c, d) <= EffHi(o, lo, hi, c, d)
+    /\ op' = o /\ lo2' = c /\ hi2' = d /\ phase' = "ext"
+    /\ UNCHANGED <<lo, hi, ext, pos, ty, form, val>>
+PickExt(b) == phase = "ext" /\ ext' = b /\ phase' = "pos" /\ UNCHANGED <<lo, hi, pos, ty, form, val, op, lo2, hi2>>
+\* the values a value assignment / DEFAULT may take in this model: the finite ends of the permitted range
+Ends == IF Finite(ELo) \/ Finite(EHi) THEN {i \in {ELo, EHi} : Finite(i)} ELSE {Zero}
 PickPos(p, f, v) ==
     /\ phase = "pos"
-    /\ f = "single" => lo = hi
+    /\ f = "single" => (lo = hi /\ op = "none")
     /\ IF p \in ValuePositions THEN v \in Ends ELSE v = 0
     /\ pos' = p /\ form' = f /\ val' = v /\ phase' = "select"
-    /\ UNCHANGED <<lo, hi, ext, ty>>
-Select == phase = "select" /\ ty' = Narrowest(lo, hi, ext) /\ phase' = "done" /\ UNCHANGED <<lo, hi, ext, pos, form, val>>
+    /\ UNCHANGED <<lo, hi, ext, ty, op, lo2, hi2>>
+Select == phase = "select" /\ ty' = Narrowest(PLo, PHi) /\ phase' = "done"
+          /\ UNCHANGED <<lo, hi, ext, pos, form, val, op, lo2, hi2>>
 
-Next == (\E i \in 1..NPoints : PickLo(i) \/ PickHi(i)) \/ (\E b \in BOOLEAN : PickExt(b))
-        \/ (\E p \in Positions, f \in {"range", "single"}, v \in 0..NPoints : PickPos(p, f, v)) \/ Select
+Next == \/ \E i \in 1..NPoints : PickLo(i) \/ PickHi(i)
+        \/ \E o \in Ops, c, d \in 0..NPoints : PickOp(o, c, d)
+        \/ \E b \in BOOLEAN : PickExt(b)
+        \/ \E p \in Positions, f \in {"range", "single"}, v \in 0..NPoints : PickPos(p, f, v)
+        \/ Select
 Spec == Init /\ [][Next]_vars
 
 Done == phase = "done"
-SelectionAllowed == Done => Allowed(ty, lo, hi, ext)
+SelectionAllowed == Done => Allowed(ty, PLo, PHi)
 \* the selection is fixed-width whenever that is allowed: shows the antecedent is not vacuous
 \* an assigned value lies in the range, hence fits the selected type
 ValueFits == (Done /\ val # 0) => Fits(ty, val, val)
-SelectionTight == Done => ((ty = "Integer") <=> (ext \/ ~Finite(lo) \/ ~Finite(hi)
-                                                   \/ \A t \in Fixed : ~Fits(t, lo, hi)))
+SelectionTight == Done => ((ty = "Integer") <=> (~Finite(PLo) \/ ~Finite(PHi)
+                                                   \/ \A t \in Fixed : ~Fits(t, PLo, PHi)))
+\* the hull of everything permitted contains the effective (root) range
+HullContainsRoot == Done => (PLo <= ELo /\ EHi <= PHi)
 =============================================================================
